@@ -471,8 +471,8 @@ impl Serialize for PublicKeyEncryptedSessionKey {
                 }
                 *pk_algo
             }
-            PublicKeyEncryptedSessionKey::Other { version, data, .. } => {
-                writer.write_u8(*version)?;
+            PublicKeyEncryptedSessionKey::Other { data, .. } => {
+                // the version octet has been written above
                 writer.write_all(data)?;
                 return Ok(());
             }
